@@ -81,6 +81,8 @@ NoTrace(pre, live, reopen) == live = pre /\ reopen = DiskPart(pre)
 \* complete after state (never a mixture), passes its own consistency check, and the next change
 \* identifier is above every identifier it had committed (cmax = greatest stamped identifier
 \* found in the recovered database).
+\* (the projection of the stored state includes the index state: which idx_* tables exist and how much
+\*  they hold, so "before or after" covers a purge / rebuild of the indexes inside the transaction)
 BeforeOrAfter(rec, before, after) == rec = before \/ rec = after
 CrashOk(rec, before, after, verify, nextc, cmax) ==
   /\ BeforeOrAfter(rec, before, after)
@@ -96,7 +98,11 @@ CrashOk(rec, before, after, verify, nextc, cmax) ==
 \* t = "C" crash-only point (nothing can fail there, the process can die)
 St(t, c) == [t |-> t, c |-> c]
 CommitStepsPublishFirst == <<
-  St("S", "reload"),                       \* qs_write.reload(): a schema change reindexes (DDL + purge)
+  \* index purge + rebuild (be reindex): as an operation of the transaction (explicit reindex, restore) or
+  \* inside qs_write.reload() at commit when the schema changed. Several storage steps, all inside the ONE
+  \* SQL transaction: drop every idx_* table, re-create them, (the rebuilt lists go through the caches and
+  \* are flushed below as "idl" / "names"), store the slope analysis, set the index version.
+  St("S", "idx_purge"), St("S", "idx_create"), St("S", "idx_slopes"), St("S", "idx_version"),
   St("P", "apps"), St("P", "oauth2"), St("P", "credsess"), St("P", "o2prov"),   \* idm/server.rs commit
   St("S", "ts_max"),                       \* be_txn.set_db_ts_max(cid.ts)
   St("P", "cid"), St("P", "fcache"), St("P", "schema"), St("P", "dinfo"), St("P", "syscfg"),
@@ -110,7 +116,7 @@ CommitStepsPublishFirst == <<
 \* repaired order: qs_write.commit() runs before the IDM publications, and inside it be_txn.commit()
 \* runs right after set_db_ts_max, before cid / filter cache / schema ... access controls
 CommitStepsStorageFirst == <<
-  St("S", "reload"),
+  St("S", "idx_purge"), St("S", "idx_create"), St("S", "idx_slopes"), St("S", "idx_version"),
   St("S", "ts_max"),
   St("S", "ruv_del"), St("S", "ruv_add"),
   St("S", "entries"), St("S", "idl"), St("S", "names"),
@@ -127,8 +133,8 @@ PublishedBefore(i) == {CommitSteps[j].c : j \in {j \in 1..(i - 1) : CommitSteps[
 
 \* name of an H2 storage point -> the step it belongs to
 StepOfPoint ==
-  [ purge_idxs |-> "reload", create_table |-> "reload", create_idx |-> "reload",
-    store_idx_slopes |-> "reload", set_db_version |-> "reload",
+  [ purge_idxs |-> "idx_purge", create_table |-> "idx_create", create_idx |-> "idx_create",
+    store_idx_slopes |-> "idx_slopes", set_db_version |-> "idx_version",
     set_db_ts_max |-> "ts_max", write_db_ruv |-> "ruv_del", write_db_ruv_add |-> "ruv_add",
     write_identry |-> "entries", delete_identry |-> "entries", write_idl |-> "idl",
     write_name2uuid_add |-> "names", write_name2uuid_rem |-> "names",
@@ -137,7 +143,9 @@ StepOfPoint ==
     sql_commit |-> "sql_commit", post_sql_commit |-> "post_commit" ]
 
 \* components a transaction kind changes (besides the data itself = "be")
-Kinds == {"create", "modify", "delete", "schema", "schemaidx", "acp", "oauth2", "domain"}
+Kinds == {"create", "modify", "delete", "schema", "schemaidx", "acp", "oauth2", "domain", "reindex"}
+\* kinds whose transaction purges and rebuilds every index table
+Reindexing(kind) == kind \in {"schema", "schemaidx", "reindex"}
 Changed(kind) == CASE kind \in {"schema", "schemaidx"} -> {"schema", "cid", "be", "ruv", "idxmeta"}
                    [] kind = "acp"    -> {"acp", "cid", "be", "ruv"}
                    [] kind = "oauth2" -> {"oauth2", "cid", "be", "ruv"}
